@@ -20,7 +20,7 @@ func init() {
 	Register(&Spec{
 		ID:        "C08",
 		Technique: "runtime monitoring: type-conformance and reference-interpreter monitors around hcldec.Decode / PartialDecode over generated spec trees and conforming/perturbed bodies, panic-guarded",
-		Rule: "each case is an abstract body tree, an hcldec spec tree generated for it within the documented preconditions of every spec kind (Object, Attr incl. dynamic type, Literal, Block, BlockList, BlockTuple, BlockSet, BlockMap/BlockObject with 1-3 labels, BlockAttrs, BlockLabel, Default, Validate, Refine, TransformFunc, Min/MaxItems) and, in 60% of the cases, one perturbation of the body (missing required item, extra attribute/block, wrong literal type, wrong label count, duplicated or removed block); decoded natively and from a JSON encoding; the value's type must conform to ImpliedType(spec), and when no error is reported the value must equal the independent interpreter's; an interpreter-predicted violation must be reported as an error; the leftover body of a PartialDecode with half the specification is decoded twice with the other half and compared with the whole decode; " +
+		Rule: "each case is an abstract body tree, an hcldec spec tree generated for it within the documented preconditions of every spec kind (Object, Attr incl. dynamic type, Literal, Block, BlockList, BlockTuple, BlockSet, BlockMap/BlockObject with 1-3 labels, BlockAttrs, BlockLabel, Default, Validate, Refine, TransformFunc, Min/MaxItems) and, in 60% of the cases, one perturbation of the body (missing required item, extra attribute/block, wrong literal type, wrong label count, duplicated or removed block); decoded natively and from a JSON encoding; the value's type must conform to ImpliedType(spec), and when no error is reported the value must equal the independent interpreter's; an interpreter-predicted violation must be reported as an error; the leftover body of a PartialDecode with half the specification is decoded twice with the other half and compared with the whole decode; directed bodies give dynamic blocks too few, the right number of and too many labels under every label-reading spec (map, object, label spec, label as the default of an argument); " +
 			"non-trivial = the spec has >= 2 block specs or the body was perturbed; distinct by source + spec kinds",
 		Assumptions: []string{"cty conversion defines attribute type conversion; hcldec.ImpliedType is used as the statement of the implied type"},
 		Quick:       Plan{Batches: 16, PerBatch: 5000, MinNonTrivial: 25000},
